@@ -18,7 +18,7 @@ Import ListNotations.
    the model deliberately stops (see notes/C02.md): a sheet selector of magnitude
    >= 9 (int() of a float) and a torus whose axis is not a coordinate
    axis (only reachable through a TR card: property C04). *)
-Inductive err := EIndex | EValue | EType | EZeroDiv | EKey | ENotImpl | EConv | EUnmodelled.
+Inductive err := EIndex | EValue | EType | EZeroDiv | EKey | ENotImpl | EConv | EAttr | EUnmodelled.
 Inductive res (A : Type) := Ok (a : A) | Err (e : err).
 Arguments Ok {A}. Arguments Err {A}.
 
